@@ -1,0 +1,6 @@
+//go:build verif
+
+package golang
+
+// VerifIsIDValid exposes the package-name check of the generator to the verification hook.
+func VerifIsIDValid(name string) bool { return isIDValid(name) }
